@@ -114,6 +114,8 @@ def observe(subs, n_ids, posterior, bare=False, nest=None):
            'n_top_names': len(top_names), 'n_dim': int(pop.n_dim()), 'pattern': pat,
            'special': [(int(e[0]), int(e[1])) for e in sp], 'names_id': names_id,
            'pop_names': list(pop.get_parameter_names()), 'names': names}
+    out['top_names'] = list(top_names)
+    out['top_names_id'] = list(h.get_parameter_names(exclude_bottom_level=True, include_ids=True))
     v = np.array(valid_vector(S, n_ids))
     out['vector_len'] = len(v)
     if len(v) == out['n_parameters']:
@@ -121,6 +123,12 @@ def observe(subs, n_ids, posterior, bare=False, nest=None):
         s1, g = h.evaluateS1(v)
         out['grad_len'] = len(np.asarray(g).ravel())
         out['s1'] = float(s1)
+        if posterior:
+            # a point the prior rejects (a population parameter outside its support): still one entry per parameter
+            w = v.copy()
+            w[-1] = -1.0
+            s1, g = h.evaluateS1(w)
+            out['rejected'] = (float(s1), len(np.asarray(g).ravel()))
     return out
 
 
@@ -135,6 +143,14 @@ def direct(subs, n_ids, obs):
                'population parameters) has %d entries, n_parameters() reports %d' % (obs['vector_len'], obs['n_parameters'])
     if obs.get('grad_len') != obs['n_parameters']:
         return 'evaluateS1 returns a gradient of length %r for %d parameters' % (obs.get('grad_len'), obs['n_parameters'])
+    if 'rejected' in obs and obs['rejected'][1] != obs['n_parameters']:
+        return 'evaluateS1 at a point outside the support of the prior (score %r) returns a gradient of length %d for %d ' \
+               'parameters' % (obs['rejected'][0], obs['rejected'][1], obs['n_parameters'])
+    n_bottom = obs['n_parameters'] - obs['n_top']
+    if obs['top_names'] != obs['names'][n_bottom:] or obs['top_names_id'] != obs['names_id'][n_bottom:]:
+        return ('the names with exclude_bottom_level=True are %r (with include_ids: %r); the population-level part of '
+                'the full lists is %r (%r)' % (obs['top_names'], obs['top_names_id'], obs['names'][n_bottom:],
+                                               obs['names_id'][n_bottom:]))
     if len(set(obs['names_id'])) != len(obs['names_id']):
         dup = [n for n in obs['names_id'] if obs['names_id'].count(n) > 1]
         return 'names prefixed by their IDs are not distinct: %r' % dup[:4]
@@ -274,6 +290,9 @@ def reconfigure_stack(rng):
             red.fix_parameters({'p1': None})
     ops.append(pre)
     ems = [chi.GaussianErrorModel(), chi.ConstantAndMultiplicativeGaussianErrorModel()]
+    if rng.random() < 0.35:
+        ems = [rng.choice(ems)] * 2          # one error model object for both outputs
+        ops.append('shared error model object')
     if kind == 'll':
         obj = chi.LogLikelihood(red, ems, [[1.0, 2.0], [1.5]], [[0.5, 1.0], [2.0]])
     elif kind == 'pred':
